@@ -12,7 +12,7 @@ E4 = "E4 probe: exhaustive product of minimal client programs (constructor x ele
 C = {
  "C01": ("model_checking", ["E1"], "controlled-scheduler exploration of all interleavings (complete for 2 threads, preemption-bounded for 3) with an exactly-once position oracle",
          "Every interleaving of the listed closed systems (every kind, length 0..4, every pair of draining plans incl. prefixed ones; triples at preemption bound 2/3) is explored on the real code; after join the multiset of delivered positions must be exactly 0..len-1, duplicates are flagged when they happen. A coverage statement for the bounded systems, not a sample.", "3.1, 5/C01"),
- "C02": ("model_checking", ["E1", "E3"], "controlled-scheduler exploration + bounded-exhaustive histories; every reported (index, element) pair compared with the source", "Every (index, value) pair returned in every explored interleaving / sequential history is compared with the source position (values differ from indices; reference kinds also by address).", "5/C02"),
+ "C02": ("model_checking", ["E1", "E3"], "controlled-scheduler exploration + bounded-exhaustive histories (incl. positional low-level access on the wrapper); every reported (index, element) pair compared with the source", "Every (index, value) pair returned in every explored interleaving / sequential history is compared with the source position (values differ from indices; reference kinds also by address).", "5/C02"),
  "C03": ("model_checking", ["E3", "E1"], "bounded-exhaustive operation histories vs. reference cursor + controlled-scheduler exploration; per-chunk contract oracle", "All histories up to depth 4/5 over chunk sizes {1,2,3,len,len+1} x consumption {0,1,all} x held / buffered chunks, and all interleavings of chunk-mixing plans: non-empty, <= n, exact ExactSizeIterator::len, consecutive positions, short only at the end.", "5/C03"),
  "C04": ("model_checking", ["E1", "E3"], "controlled-scheduler exploration with online prefix / per-thread / real-time-order oracles + exhaustive sequential histories vs. reference cursor", "Gap-free prefix at every quiescent point, per-thread monotonicity, real-time order (snapshot of completed calls taken at the first atomic operation of each call) on every interleaving; every sequential history equals the reference cursor.", "3.1 oracle inputs, 5/C04"),
  "C05": ("model_checking", ["E3", "E1"], "bounded-exhaustive histories continuing past the end (incl. a non-fused wrapped iterator) + interleavings of drain-then-pull plans", "Once an end report completed, no later-starting pull delivers and no length is positive: all histories up to depth 5/6 and all interleavings of the listed plans.", "5/C05"),
@@ -28,7 +28,7 @@ C = {
  "C15": ("model_checking", ["E3", "E1"], "bounded-exhaustive histories on consuming kinds with a counting global allocator (element sizes 8 and 24 bytes, elements owning a heap block) + the same ledger after every interleaving of concurrent stop-early systems", "After every history and terminal, and after every explored interleaving followed by drop / into_seq_iter, no heap block that belonged to the consumed collection or was allocated by the iterator machinery is live.", "5/C15, 11.2"),
  "C16": ("exploration", ["E3"], "exhaustive grid of boundary inputs (range bounds^2, chunk sizes up to usize::MAX, zero sizes) x short follow-up histories, in a build with and one without overflow checks, against a mathematical model", "Every cell of the stated grid followed by every history of depth <= 3/4: exact in-range values and indices, no empty chunk, no panic except the documented ones (which must occur).", "5/C16"),
  "C17": ("exploration", ["E3", "E1"], "differential: the complete transcripts of an exhaustive history set produced by two differently compiled harness binaries (debug assertions + overflow checks on / off) must be identical, aborts are caught per history; plus the outcome sets of exhaustively explored 2-thread systems (length queries racing with pulls) compared between two differently compiled scheduler binaries", "Transcript hashes per work unit compared between profiles; any abort (std precondition check) or difference is localised to the first differing history. Concurrent leg: per configuration identical outcome sets and violation classes in both profiles.", "5/C17, 11.2"),
- "C18": ("fault_enumeration", ["E1"], "fault injection at every position k (k-th next() of the wrapped iterator, k-th clone, k-th closure call) x all interleavings of the other threads, with hang predicate and drop ledger", "For every crash point and every interleaving: no hang, no duplicate, exact-once destruction.", "5/C18"),
+ "C18": ("fault_enumeration", ["E1"], "fault injection at every position k (k-th next() of the wrapped iterator - with a scheduling point inside the panicking call -, k-th clone, k-th closure call) x all interleavings of the other threads, with hang predicate, drop ledger and abort attribution, in an optimized build and in one with debug assertions", "For every crash point and every interleaving: no hang, no duplicate, exact-once destruction.", "5/C18"),
  "C19": ("model_checking", ["E3"], "bounded-exhaustive histories over up to three live iterators (fresh and cloned) on one collection vs. one reference cursor per iterator, with address checks", "Every delivered reference points at the collection's element, iterators and clones progress independently (all are queried after every step), the collection is intact afterwards.", "5/C19"),
 }
 NOTE = {
